@@ -51,6 +51,31 @@ if TYPE_CHECKING:
 logger = logging.getLogger("xknx.log")
 
 
+class _OwnAckTunnelling(Tunnelling):
+    """Tunnelling that is only answered by the TunnellingAck of its own TunnellingRequest."""
+
+    __slots__ = ()
+
+    def _response_rec_callback(
+        self, knxipframe: KNXIPFrame, source: HPAI, _: KNXIPTransport
+    ) -> None:
+        """Ignore an ack for another frame or channel - keep waiting for the own one."""
+        body = knxipframe.body
+        if isinstance(body, TunnellingAck) and (
+            body.communication_channel_id
+            != self.tunnelling_request.communication_channel_id
+            or body.sequence_counter != self.tunnelling_request.sequence_counter
+        ):
+            # e.g. the late or repeated acknowledgement of an earlier frame
+            logger.debug(
+                "Ignoring TunnellingAck not matching the pending TunnellingRequest %s: %s",
+                self.tunnelling_request,
+                body,
+            )
+            return
+        super()._response_rec_callback(knxipframe, source, _)
+
+
 class _Tunnel(Interface):
     """Class for handling KNX/IP tunnels."""
 
@@ -557,7 +582,7 @@ class UDPTunnel(_Tunnel):
 
     async def _send_tunnelling_request(self, frame: TunnellingRequest) -> None:
         """Send Telegram to tunnelling device."""
-        tunnelling = Tunnelling(
+        tunnelling = _OwnAckTunnelling(
             transport=self.transport,
             data_endpoint=self._data_endpoint_addr,
             tunnelling_request=frame,
